@@ -185,7 +185,14 @@ impl SetSketchParams {
         //
         let loadfile = fileres.unwrap();
         let reader = BufReader::new(loadfile);
-        let hll_parameters: Self = serde_json::from_reader(reader).unwrap();
+        // a truncated or corrupted file is an error for the caller, not a panic
+        let hll_parameters: Self = match serde_json::from_reader(reader) {
+            Ok(params) => params,
+            Err(e) => {
+                log::error!("SetSketchParams reload_json : could not parse file : {}", e);
+                return Err(format!("SetSketchParams reload_json could not parse file : {}", e));
+            }
+        };
         //
         Ok(hll_parameters)
     } // end of reload_json
